@@ -22,6 +22,11 @@ Theorem stop_postcondition_partial : forall n sched,
 Proof. exact stop_post_all. Qed.
 Print Assumptions stop_postcondition_partial.
 
+(* the component machine's stop visit deals with one thread-table entry completely (kill, re-queue, join) before the next one;
+   generated from ThreadRunner._on_stop: one loop that contains both the kill and the join *)
+Theorem stop_handles_one_entry_at_a_time : stop_one_entry_at_a_time = true.
+Proof. exact eq_refl. Qed.
+
 (* each ingredient matters *)
 Theorem kill_without_reroute_refuted :
   exists sched, exists s, In s (grun (lstep true true false true) [linit] sched) /\ lsp s = SDone /\ lst s = KILLED /\ lq s = 0.
